@@ -10,6 +10,7 @@ CONSTANTS
   Replay = {"Prevote", "Precommit"}
   Skew = {"judged", "same"}
   KSet = {"Prevote", "Precommit", "Cert"}
+  GVFocus = "recv"
   Ring = 4
   MaxLost = 1000000
   FutureJudged = TRUE
